@@ -161,7 +161,7 @@ class ClipSim:
     properties = ['C08', 'C09']
 
     def budget(self, prop, tier):
-        return {'quick': {'runs': 2400, 'seconds': 50}, 'thorough': {'runs': 60000, 'seconds': 780}}[tier]
+        return {'quick': {'runs': 2600, 'seconds': 60}, 'thorough': {'runs': 60000, 'seconds': 780}}[tier]
 
     def rule(self, prop):
         return ('plans drawn from VERIF_SEED: world (every convention; coordinates as coordinates or plain variables; meshes with '
@@ -199,7 +199,7 @@ class ClipSim:
                # xarray's global LRU of open file handles: with a tiny cache every lazy read re-opens its file by path
                'file_cache_maxsize': rng.choice([1, 2, 128, 128])}
         env['penv'] = seams.gen_process_env(rng)
-        if rng.random() < (0.03 if not big else 0.008):
+        if rng.random() < (0.02 if not big else 0.008):
             # every lifetime of this plan is the main program of a fresh interpreter: another hash seed, sometimes -O
             env['fresh'] = {'flags': rng.choice([['-O'], ['-O'], []]), 'hashseed': rng.randrange(1, 100000)}
         nw = n_writes(world)
@@ -348,6 +348,8 @@ class ClipSim:
             end = 'crash_after_ack' if (ops and ops[-1]['op'] in ('save', 'save_mask') and rng.random() < 0.5) else 'exit'
             lts.append({'ops': ops, 'end': end})
             used_works += [[li, w_] for w_ in new_works]
+        if env.get('fresh') and len(lts) > 2:
+            env.pop('fresh')      # fresh interpreters are slow to start: short histories only
         return {'engine': self.name, 'world': world, 'env': env, 'lifetimes': lts}
 
     def shrink(self, plan):
